@@ -10,7 +10,7 @@
    implementation's own observations (the future-truth monitor: submitted bytes, reported position against what
    was applied there). *)
 From RaftV Require Import Cluster.World Cluster.Statements Proofs.RVSpec Proofs.AESpec Proofs.CommitSpec.
-From RaftV Require Import Proofs.ConfStatic Proofs.ApplyOnce Proofs.LCAck.
+From RaftV Require Import Proofs.ConfStatic Proofs.ApplyOnce Proofs.LCAck Proofs.SubmitBytes.
 Open Scope N_scope.
 
 (* cluster level, every execution without membership changes and snapshots: between two restores a node hands each
@@ -60,3 +60,36 @@ Theorem C03_future_answered_with_the_applied_entry : forall now n e p x,
               x = (fid, FOp (e_index e) (e_term e) p (N.of_nat (length (n_fsm n ++ [p])))).
 Proof. exact lp_apply_one_results. Qed.
 Print Assumptions C03_future_answered_with_the_applied_entry.
+
+(* "A future that resolves successfully returns exactly the submitted bytes", cluster level, every execution without
+   membership changes and without snapshots (any number of nodes, delivery order, loss, duplication, delay, crash at
+   any storage write - a torn submission included -, restart, step-downs and re-elections; no bound on anything).
+   [subs] is the submission record of the execution: the (future id, payload) pairs of its replicated Submit calls, in
+   order, the future id being the one the world allocates for that call.  A success answer (FOp index term payload
+   response) found in any node's answer history under future id fid carries a payload that was submitted under fid ... *)
+Theorem C03_answered_bytes_are_the_submitted_bytes : forall ids boot et ld ls, static ls = true -> nosnap ls = true ->
+  forall n fid i t p r, In n (w_nodes (run (init_world ids boot et ld) ls)) ->
+    In (fid, FOp i t p r) (n_results n) ->
+    In (fid, p) (subs (init_world ids boot et ld) ls).
+Proof. exact answered_bytes_are_submitted. Qed.
+Print Assumptions C03_answered_bytes_are_the_submitted_bytes.
+
+(* ... future ids of replicated submissions are pairwise distinct (any world, any labels) ... *)
+Theorem C03_future_ids_are_distinct : forall ls w, NoDup (map fst (subs w ls)).
+Proof. exact subs_fids_distinct. Qed.
+Print Assumptions C03_future_ids_are_distinct.
+
+(* ... so it is THE payload submitted under that future. *)
+Theorem C03_answered_bytes_unique : forall ids boot et ld ls, static ls = true -> nosnap ls = true ->
+  forall n fid i t p r, In n (w_nodes (run (init_world ids boot et ld) ls)) ->
+    In (fid, FOp i t p r) (n_results n) ->
+    forall p', In (fid, p') (subs (init_world ids boot et ld) ls) -> p' = p.
+Proof. exact answered_bytes_unique. Qed.
+Print Assumptions C03_answered_bytes_unique.
+
+(* not vacuous: a schedule in which a submission of 42 is answered with 42 *)
+Example C03_answered_bytes_example :
+  static ex_ls = true /\ nosnap ex_ls = true /\
+  map n_results (w_nodes (run (init_world [0] [0] 100 50) ex_ls)) = [[(0, FOp 3 1 42 1)]] /\
+  subs (init_world [0] [0] 100 50) ex_ls = [(0, 42)].
+Proof. exact ex_answered. Qed.
